@@ -662,6 +662,23 @@ def install_env_stubs(eng):
                 held[key] = "w"
             return [(st, BV(0, 32))]
         return f
+    def timedlockstub(nm, mode):
+        # a bounded wait may give up: one path acquires the lock, the other returns ETIMEDOUT without holding it
+        def f(e, st, args, ins):
+            a = simp(args[0])
+            s2 = st.copy()
+            st.user.setdefault("locks", []).append((nm, a))
+            st.events.append(("lock", nm, a))
+            key = a.as_long() if is_conc(a) else str(a)
+            st.user.setdefault("held", {})[key] = mode
+            s2.events.append(("lock-timeout", nm, a))
+            return [(st, BV(0, 32)), (s2, BV(110, 32))]
+        return f
+    for nm, mode in (("pthread_rwlock_timedwrlock", "w"), ("pthread_rwlock_clockwrlock", "w"), ("pthread_rwlock_timedrdlock", "r"), ("pthread_rwlock_clockrdlock", "r"),
+                     ("pthread_mutex_timedlock", "w"), ("pthread_mutex_clocklock", "w")):
+        eng.stubs[nm] = timedlockstub(nm, mode)
+    for nm in ("_ZNSt6chrono3_V212system_clock3nowEv", "_ZNSt6chrono3_V212steady_clock3nowEv"):
+        eng.stubs.setdefault(nm, lambda e, st, args, ins: [(st, e.fresh("clk", 64))])
     for nm in ("pthread_rwlock_wrlock", "pthread_rwlock_rdlock", "pthread_rwlock_unlock", "pthread_mutex_lock",
                "pthread_mutex_unlock", "pthread_rwlock_tryrdlock", "pthread_rwlock_trywrlock"):
         eng.stubs[nm] = lockstub(nm)
